@@ -33,12 +33,15 @@ type iscenario struct {
 
 type upstream struct {
 	key     string
-	at      time.Duration
+	at      time.Duration // when the answer was produced
+	started time.Duration // when the query reached the upstream
+	thread  int           // logical thread that issued it
 	version int
 	failed  bool
 }
 
 type lookup struct {
+	vthread    int
 	thread     int
 	name       string
 	start, end time.Duration
@@ -54,7 +57,9 @@ func runInter(sc iscenario, choose vs.Chooser) (ups []upstream, looks []lookup, 
 		t := int(vs.Elapsed() / time.Second)
 		return sc.FailFrom >= 0 && t >= sc.FailFrom && t < sc.FailTo
 	}
+	starts := map[int]time.Duration{}
 	srv.OnQuery = func(q dohmem.Query) {
+		starts[vs.ThreadID()] = vs.Elapsed()
 		vs.Yield("doh query " + q.Name)
 		if sc.Latency > 0 {
 			vs.Sleep(time.Duration(sc.Latency) * time.Second)
@@ -63,6 +68,8 @@ func runInter(sc iscenario, choose vs.Chooser) (ups []upstream, looks []lookup, 
 	srv.Zone = func(name string, t uint16) dohmem.Answer {
 		// evaluated after the latency: the answer reflects the zone at answer time
 		u := upstream{key: keyOf(name, t), at: vs.Elapsed(), version: version, failed: failing()}
+		u.thread = vs.ThreadID()
+		u.started = starts[u.thread]
 		ups = append(ups, u)
 		if u.failed {
 			return dohmem.Answer{RCode: 2}
@@ -87,7 +94,7 @@ func runInter(sc iscenario, choose vs.Chooser) (ups []upstream, looks []lookup, 
 					if st.Wait > 0 {
 						vs.Sleep(time.Duration(st.Wait) * time.Second)
 					}
-					l := lookup{thread: ti, name: st.Name, start: vs.Elapsed()}
+					l := lookup{thread: ti, vthread: vs.ThreadID(), name: st.Name, start: vs.Elapsed()}
 					r, err := res.Resolve(context.Background(), st.Name)
 					l.end, l.err = vs.Elapsed(), err
 					if err == nil {
@@ -117,6 +124,38 @@ func monitorInter(sc iscenario, ups []upstream, looks []lookup, s *vs.Sched) (ke
 	}
 	if s.Deadlock != "" {
 		return "deadlock", s.Deadlock
+	}
+	// "within the TTL serves repeated lookups from its cache": a lookup that BEGINS strictly after an answer for a key was
+	// obtained, while that answer is still within its smallest TTL, must not send an upstream query for that key.
+	// (Lookups that began before the answer existed may legitimately fetch it themselves: concurrent first lookups.)
+	for _, q := range ups {
+		var call *lookup
+		for i := range looks {
+			if looks[i].vthread == q.thread && looks[i].start <= q.started && q.at <= looks[i].end {
+				call = &looks[i]
+			}
+		}
+		if call == nil {
+			continue
+		}
+		for _, rr := range ups {
+			if rr.key != q.key || rr.failed || rr.at >= call.start {
+				continue
+			}
+			ttl, bounded := minTTL(versions[rr.version][rr.key])
+			if !bounded || ttl == 0 {
+				continue
+			}
+			removed := false
+			for _, f := range ups {
+				if f.key == q.key && f.failed && f.at > rr.at && f.at <= q.started {
+					removed = true // a failed refresh removes the entry
+				}
+			}
+			if !removed && rr.at+time.Duration(ttl)*time.Second > q.started {
+				return "redundant-upstream-query:" + q.key, fmt.Sprintf("client lookup begun at %v sent an upstream query for %s at %v although the answer obtained at %v (smallest TTL %d s) was still valid; upstream log: %+v", call.start, q.key, q.started, rr.at, ttl, ups)
+			}
+		}
 	}
 	for _, l := range looks {
 		if l.err != nil {
@@ -239,7 +278,7 @@ func RunInter(r *ev.Run) {
 		bound = 3
 	}
 	scs := interScenarios(r.Thorough())
-	r.Rule(fmt.Sprintf("E3: 2 (thorough also 3) client threads, each running a program of 1-2 lookups on colliding keys at chosen virtual times, a zone thread changing the data at t=1 / t=1,4, an upstream that fails during a window, upstream latency 0 or 1 s (time passes while the entry lock is held); the real, instrumented resolver (RWMutex, LRU calls, clock, DoH round trip are scheduling points); ALL schedules with at most %d deviations per scenario; monitors: no deadlock/panic, every answer is contained in an upstream answer that was still within its smallest TTL when the call started or was fetched during the call, errors only when an upstream query of that call failed. distinct = distinct scenarios", bound))
+	r.Rule(fmt.Sprintf("E3: 2 (thorough also 3) client threads, each running a program of 1-2 lookups on colliding keys at chosen virtual times, a zone thread changing the data at t=1 / t=1,4, an upstream that fails during a window, upstream latency 0 or 1 s (time passes while the entry lock is held); the real, instrumented resolver (RWMutex, LRU calls, clock, DoH round trip are scheduling points); ALL schedules with at most %d deviations per scenario; monitors: no deadlock/panic, every answer is contained in an upstream answer that was still within its smallest TTL when the call started or was fetched during the call, errors only when an upstream query of that call failed, and a lookup begun after an answer was obtained sends no upstream query for that key while the answer is within its TTL. distinct = distinct scenarios", bound))
 	for _, sc := range scs {
 		r.Eval(fmt.Sprintf("%+v", sc), "")
 	}
